@@ -45,7 +45,7 @@ SCHEMES = ["explicit_euler", "generalized_rush_larsen", "forward_explicit_euler"
            "forward_generalized_rush_larsen", "hybrid_rush_larsen"]
 NAMES = ["m", "cell", "model_2", "cell.v2"]
 DAMAGE = ["delete", "empty", "truncate", "truncate", "flip", "flip", "badutf8", "dir", "dup_tail", "crlf", "bom"]
-ARMS = [("read_eio", "model"), ("read_eacces", "model"), ("vanish", "model"), ("read_eio", "config"),
+ARMS = [("read_eio", "model"), ("read_eacces", "model"), ("vanish", "model"), ("vanish_at_open", "model"), ("read_eio", "config"),
         ("read_eacces", "config"), ("write_enospc", "output"), ("write_partial", "output")]
 
 
